@@ -393,6 +393,14 @@ def _limit_memory():
     resource.setrlimit(resource.RLIMIT_AS, (6 << 30, 6 << 30))
 
 
+def _unlimit_memory():
+    """A sanitizer build reserves terabytes of address space for its shadow memory: the limit the worker process runs under
+    (inherited by its children) has to go, or the harness dies before main."""
+    import resource
+    hard = resource.getrlimit(resource.RLIMIT_AS)[1]
+    resource.setrlimit(resource.RLIMIT_AS, (hard, hard))
+
+
 class CppModel:
     """Compiles the harness for the generated C++ in <modeldir>/out/cpp."""
 
@@ -451,7 +459,9 @@ class CppModel:
                     json.dump(plan2, f)
                 env = dict(os.environ, ASAN_OPTIONS="detect_leaks=0:abort_on_error=0:exitcode=99", UBSAN_OPTIONS="print_stacktrace=1:halt_on_error=1:exitcode=98")
                 try:
-                    p = subprocess.run([self.bin, pp, rp], capture_output=True, text=True, timeout=timeout, env=env, preexec_fn=None if self.sanitize else _limit_memory)
+                    # (a sanitizer build runs without address-space randomisation: with the kernel's 32 bits of mmap entropy the
+                    #  fixed shadow-memory range of ASan collides with a mapping every few hundred process starts)
+                    p = subprocess.run((["setarch", os.uname().machine, "-R"] if self.sanitize else []) + [self.bin, pp, rp], capture_output=True, text=True, timeout=timeout, env=env, preexec_fn=_unlimit_memory if self.sanitize else _limit_memory)
                     rc, err = p.returncode, p.stderr
                 except subprocess.TimeoutExpired as e:
                     rc, err = -999, "timeout after %.0fs" % timeout
@@ -479,6 +489,8 @@ class CppModel:
                 bad = start + done
                 if bad >= len(runs):
                     break
+                if "ReserveShadowMemoryRange failed" in (err or ""):
+                    raise HarnessTrouble("the sanitizer build of the harness could not reserve its shadow memory (an address-space limit is in force): " + (err or "")[-300:])
                 results[bad] = {"id": bad, "crashed": True, "rc": rc, "stderr": (err or "")[-3000:], "hang": rc == -999}
                 start = bad + 1
             return results
